@@ -294,41 +294,45 @@ Definition v_file (v : mval) : path := match v with VMod f _ _ => f | VNs _ _ =>
 Definition res_of_val (v : mval) : res :=
   match v with VMod f _ _ => RFile f | VNs _ ps => RNs ps end.
 
-Definition cache := list (list str * mval).
+(* inference_state.module_cache: dotted tuple -> value set (an EMPTY set is cached too) *)
+Definition cache := list (list str * option mval).
 
-Fixpoint cache_get (c : cache) (k : list str) : option mval :=
+Fixpoint cache_get (c : cache) (k : list str) : option (option mval) :=
   match c with
   | [] => None
   | (k', v) :: r => if strs_eqb k k' then Some v else cache_get r k
   end.
 
-(* imports.import_module behind typeshed.import_module_decorator (module_cache first) *)
+(* imports.import_module behind typeshed.import_module_decorator: module_cache first, and
+   whatever is computed is added to it *)
 Definition import_module (fs : node) (c : cache) (sys_path : list path)
-           (names : list str) (parent : option mval) : option mval :=
+           (names : list str) (parent : option mval) : option mval * cache :=
   match cache_get c names with
-  | Some v => Some v
+  | Some r => (r, c)
   | None =>
-      match parent with
-      | None => conv names (find_in fs sys_path (last names []) [])
-      | Some pv => match v_path pv with
-                   | None => None
-                   | Some ps => conv names (find_in fs ps (last names []) [])
-                   end
-      end
+      let r := match parent with
+               | None => conv names (find_in fs sys_path (last names []) [])
+               | Some pv => match v_path pv with
+                            | None => None
+                            | Some ps => conv names (find_in fs ps (last names []) [])
+                            end
+               end in
+      (r, (names, r) :: c)
   end.
 
 (* imports.import_module_by_names: every prefix in turn *)
 Fixpoint walk (fs : node) (c : cache) (sp : list path) (done todo : list str)
-         (parent : option mval) : option mval :=
+         (parent : option mval) : option mval * cache :=
   match todo with
-  | [] => parent
+  | [] => (parent, c)
   | n :: rest => match import_module fs c sp (done ++ [n]) parent with
-                 | None => None
-                 | Some v => walk fs c sp (done ++ [n]) rest (Some v)
+                 | (None, c') => (None, c')
+                 | (Some v, c') => walk fs c' sp (done ++ [n]) rest (Some v)
                  end
   end.
 
-Definition import_by_names (fs : node) (c : cache) (sp : list path) (names : list str) : option mval :=
+Definition import_by_names (fs : node) (c : cache) (sp : list path) (names : list str)
+  : option mval * cache :=
   walk fs c sp [] names None.
 
 Record importer := { i_path : list str; i_fixed : option (list path); i_possible : bool }.
@@ -360,15 +364,15 @@ Definition mk_importer (self : mval) (import_path : list str) (level : nat) : im
   end.
 
 (* Importer.follow *)
-Definition follow (fs : node) (c : cache) (roots : list path) (imp : importer) : option mval :=
+Definition follow (fs : node) (c : cache) (roots : list path) (imp : importer) : option mval * cache :=
   match i_path imp with
-  | [] => match i_fixed imp with
-          | Some (d :: _) => Some (VNs [basename d] [d])
-          | _ => None
-          end
-  | _ => if negb (i_possible imp) then None
+  | [] => (match i_fixed imp with
+           | Some (d :: _) => Some (VNs [basename d] [d])
+           | _ => None
+           end, c)
+  | _ => if negb (i_possible imp) then (None, c)
          else match cache_get c (i_path imp) with
-              | Some v => Some v
+              | Some r => (r, c)
               | None => import_by_names fs c (match i_fixed imp with Some sp => sp | None => roots end)
                                         (i_path imp)
               end
@@ -381,40 +385,47 @@ Definition has_sub (fs : node) (ps : list path) (x : str) : bool :=
                     | _ => false
                     end) ps.
 
-Definition sub_follow (fs : node) (c : cache) (roots : list path) (v : mval) (x : str) : option mval :=
+Definition sub_follow (fs : node) (c : cache) (roots : list path) (v : mval) (x : str)
+  : option mval * cache :=
   follow fs c roots (mk_importer v [x] 1).               (* SubModuleName.infer: level = 1 *)
 
 Inductive lookres := LAttr (f : path) (n : str) (d : bool) | LVal (v : mval) | LUnres | LNothing.
 
 (* value.py__getattribute__(name) on a module / namespace: module globals, then sub_modules_dict *)
-Definition getattr (fs : node) (c : cache) (roots : list path) (v : mval) (x : str) : lookres :=
+Definition getattr (fs : node) (c : cache) (roots : list path) (v : mval) (x : str) : lookres * cache :=
   let sub := match v_path v with
              | Some ps => if has_sub fs ps x
-                          then match sub_follow fs c roots v x with Some v' => LVal v' | None => LUnres end
-                          else LNothing
-             | None => LNothing
+                          then match sub_follow fs c roots v x with
+                               | (Some v', c') => (LVal v', c')
+                               | (None, c') => (LUnres, c')
+                               end
+                          else (LNothing, c)
+             | None => (LNothing, c)
              end in
   match v with
   | VMod f _ _ => match assoc x (file_attrs fs f) with
-                  | Some d => LAttr f x d
+                  | Some d => (LAttr f x d, c)
                   | None => sub
                   end
   | VNs _ _ => sub
   end.
 
-(* The module jedi builds for the analysed file (Script._get_module) *)
+(* The module jedi builds for the analysed file (Script._get_module) seeds the cache *)
 Definition script_cache (self : mval) : cache :=
   match self with
-  | VMod _ _ names => [(names, self)]
+  | VMod _ _ names => [(names, Some self)]
   | _ => []
   end.
+
+Definition res_of_opt (o : option mval) : res :=
+  match o with Some v => res_of_val v | None => RNone end.
 
 (* infer_import (goto = false) / goto_import (goto = true), and the star-import filter *)
 Definition jedi_query (goto : bool) (fs : node) (roots : list path) (self : mval) (q : query) : res :=
   let c := script_cache self in
   match follow fs c roots (mk_importer self (q_path q) (q_level q)) with
-  | None => RNone
-  | Some v =>
+  | (None, _) => RNone
+  | (Some v, c1) =>
       match q_probe q, q_name q with
       | Some x, _ =>
           (* first filter of the star-imported module only *)
@@ -424,22 +435,21 @@ Definition jedi_query (goto : bool) (fs : node) (roots : list path) (self : mval
                           | None => RNone
                           end
           | VNs _ ps => if has_sub fs ps x
-                        then match sub_follow fs c roots v x with
+                        then match fst (sub_follow fs c1 roots v x) with
                              | Some v' => res_of_val v'
                              | None => if goto then RUnres else RNone
                              end
                         else RNone
           end
       | None, Some x =>
-          let fallback := match follow fs c roots (mk_importer self (q_path q ++ [x]) (q_level q)) with
-                          | Some v' => res_of_val v'
-                          | None => RNone
-                          end in
-          match getattr fs c roots v x with
-          | LAttr f n d => RAttr f n d
-          | LVal v' => res_of_val v'
-          | LUnres => if goto then RUnres else fallback
-          | LNothing => fallback
+          match getattr fs c1 roots v x with
+          | (LAttr f n d, _) => RAttr f n d
+          | (LVal v', _) => res_of_val v'
+          | (LUnres, c2) =>
+              if goto then RUnres
+              else res_of_opt (fst (follow fs c2 roots (mk_importer self (q_path q ++ [x]) (q_level q))))
+          | (LNothing, c2) =>
+              res_of_opt (fst (follow fs c2 roots (mk_importer self (q_path q ++ [x]) (q_level q))))
           end
       | None, None => res_of_val v
       end
@@ -595,3 +605,26 @@ Fixpoint first_wins (fs : node) (roots : list path) (r : path) (n : str) : bool 
 
 Definition unshadowed (fs : node) (roots : list path) (r : path) (names : list str) (is_pkg : bool) : bool :=
   first_wins fs roots r (hd [] names) && chain_ok fs r names is_pkg.
+
+(* ------------------------------------ vocabulary of the statement-level theorems *)
+(* how Python knows the importing module, read off jedi's ModuleValue *)
+Definition importer_of (self : mval) : option (list str * bool) :=
+  match self with VMod _ p names => Some (names, p) | VNs _ _ => None end.
+
+(* the analysed file really is the module its derived dotted name imports (round trip) *)
+Definition self_coherent (fs : node) (roots : list path) (self : mval) : Prop :=
+  match self with
+  | VMod _ _ names => conv names (py_import fs roots (join_dot names)) = Some self
+  | VNs _ _ => False
+  end.
+
+(* the absolute dotted path of the from-part after level rewriting *)
+Definition abs_path (self : mval) (q : query) : list str :=
+  match q_level q with
+  | O => q_path q
+  | S l => firstn (length (v_package self) - l) (v_package self) ++ q_path q
+  end.
+
+(* absolute import of a non-empty path, or a relative level inside the package *)
+Definition level_ok (self : mval) (q : query) : Prop :=
+  (q_level q = 0 /\ q_path q <> []) \/ (1 <= q_level q <= length (v_package self)).
